@@ -83,6 +83,10 @@ func recOf(ob obsT, id int) *orcObs {
 
 func generate(h *hist, r *lib.Rand, idx int) {
 	n := 1 + r.Pick(7)
+	longRun := idx%15 == 7 // enough nonces to reach attestation pruning (MaxKeepEventSize = 100)
+	if longRun {
+		n = 1 + r.Pick(2)
+	}
 	if lib.Tier() == "thorough" && idx%10 == 0 {
 		n = 8 + r.Pick(33)
 	}
@@ -116,10 +120,9 @@ func generate(h *hist, r *lib.Rand, idx int) {
 	if lib.Tier() == "thorough" {
 		nOps = 30 + r.Pick(120)
 	}
-	longRun := idx%15 == 7 // enough nonces to reach attestation pruning (MaxKeepEventSize = 100)
 	if longRun {
 		nOps = 700
-		n = 1 + r.Pick(2)
+		h.light = true
 	}
 	inList := func(l []int, v int) bool {
 		for _, x := range l {
